@@ -38,6 +38,8 @@ BASES_Q = {
     "Polygon": "Polygon/chiral", "ConvexPolygon": "ConvexPolygon/chiral", "ConvexSpheropolygon": "ConvexSpheropolygon/xy",
     "Circle": "curved:0", "Ellipse": "curved:2", "Sphere": "curved:4", "Ellipsoid": "curved:6",
 }
+# xy-plane shapes whose stored normal is -z (clockwise input): distance_to_surface has a separate branch for them
+BASES_X = {"ConvexPolygon": "ConvexPolygon/down", "ConvexSpheropolygon": "ConvexSpheropolygon/down"}
 BASES_T = {
     "ConvexPolyhedron": "ConvexPolyhedron/lattice", "Polyhedron": "Polyhedron/lsolid", "ConvexSpheropolyhedron": "ConvexSpheropolyhedron/lattice",
     "Polygon": "Polygon/cw", "ConvexPolygon": "ConvexPolygon/xy", "ConvexSpheropolygon": "ConvexSpheropolygon/chiral",
@@ -152,7 +154,7 @@ def cases(tier):
 
     bind_repo()
     out = [{"xobj": cls} for cls in BASES_T]
-    sets = [BASES_Q] + ([BASES_T] if tier == "thorough" else [])
+    sets = [BASES_Q, BASES_X] + ([BASES_T] if tier == "thorough" else [])
     for bs in sets:
         for cls, base in bs.items():
             n = len(query_alphabet(make(base)))
